@@ -20,6 +20,7 @@ let parse_op fill s : op =
   match s with
   | "AT" -> OAdd TmplTink | "AR" -> OAdd TmplRaw | "AN" -> OAdd TmplNil
   | "AU" -> OAdd TmplUnknownPrefix | "AB" -> OAdd TmplUnregistered
+  | "AL" -> OAdd TmplRaw  (* key-manager-only key type, RAW prefix: same bookkeeping, legacy creation path *)
   | "PT" -> OAddParams false | "PR" -> OAddParams true
   | "KR" -> OAddKey (None, n_of_int fill)
   | "H" -> OHandle
